@@ -196,7 +196,7 @@ pub fn replay(case: &Value) -> Result<Verdict, String> {
 
 pub fn device_path() -> BoxedStrategy<String> {
     prop_oneof![
-        3 => prop::sample::select(vec!["/", "/dev/mdt0", "/dev/mapper/mdt-1", "lustre-MDT0000", "/mnt/a b"]).prop_map(|s| s.to_string()),
+        3 => prop::sample::select(vec!["/", "/dev/mdt0", "/dev/mapper/mdt-1", "lustre-MDT0000", "/mnt/a b", "/mnt/mdt0/", "a//", "./x", " /dev/x ", "/dev/mdt0\n"]).prop_map(|s| s.to_string()),
         3 => prop::sample::select(vec!["a\"b", "\\", "a\\", "\"", "\")(evil)(\"", "x;y", "#|", "~a", "é/日", "", " ", "\n", "a\\\"b", "\\\\", "(lipe-scan \"x\")"]).prop_map(|s| s.to_string()),
         2 => proptest::collection::vec(prop::sample::select(crate::checks::c04::ALPHABET.to_vec()), 0..12).prop_map(|v| v.into_iter().collect::<String>()),
         1 => "[ -~]{0,20}",
@@ -221,6 +221,24 @@ pub fn run(ctx: &Ctx) -> Report {
             1 => tok().prop_filter("format literal", |t| !t.contains('%') && !t.contains('\\')).prop_map(|t| E::A(Act::Printf(vec![FEl::Lit(t), FEl::E(Esc::Newline)]))),
         ];
         let strat = (gen::expr_over(leaf.boxed(), 4, 12, true), prop_oneof![3 => Just(None), 1 => gen::count_u32().prop_map(Some)], proptest::collection::vec(op, 2..6)).prop_map(|(t, th, mut ops)| {
+            // paths derived from an earlier path of the same history (its escaped, unescaped, trimmed,
+            // slash-stripped or doubled form): a cache keyed on the wrong form would confuse them
+            let first = ops.iter().find_map(|o| if let Op::Scheme(p) = o { Some(p.clone()) } else { None });
+            if let Some(p) = first {
+                let derived = match (p.len() + ops.len()) % 7 {
+                    0 => Some(p.replace('\\', "\\\\").replace('"', "\\\"")),
+                    1 => Some(p.replace("\\\"", "\"").replace("\\\\", "\\")),
+                    2 => Some(p.trim().to_string()),
+                    3 => Some(p.trim_end_matches('/').to_string()),
+                    4 => Some(format!("{p}{p}")),
+                    5 => Some(p.to_lowercase()),
+                    _ => None,
+                };
+                if let Some(d) = derived {
+                    let at = ops.len() / 2 + 1;
+                    ops.insert(at.min(ops.len()), Op::Scheme(d));
+                }
+            }
             // make repeats likely: sometimes render the first path again at the end
             if let Some(Op::Scheme(p)) = ops.first().cloned() {
                 if ops.len() % 2 == 0 {
